@@ -886,3 +886,30 @@ def _mirror_scale(repo, ob, failure):
 
 GENERATORS.insert(0, ("C08.transform.scale", _mirror_scale))
 GENERATORS.insert(0, ("C08.transform.order", _mirror_scale))
+
+
+def _container_scope(repo, ob, failure):
+    """a value set by <var> inside an element's content is discarded when that element closes"""
+    import re as _re
+    lab = " ".join(ob.get("labels") or [ob.get("id", "")])
+    cont = [('defs', '<svg><var a="1"/><defs><var a="5"/></defs><text text="$a"/></svg>'),
+            ('specs', '<svg><var a="1"/><specs><var a="5"/></specs><text text="$a"/></svg>'),
+            ('rect with element content', '<svg><var a="1"/><rect wh="2"><var a="5"/></rect><text text="$a"/></svg>')]
+    grp = [('g', '<svg><var a="1"/><g><var a="5"/></g><text text="$a"/></svg>'),
+           ('g attribute', '<svg><var a="1"/><g a="5"><text text="in"/></g><text text="$a"/></svg>'),
+           ('reuse', '<svg><var a="1"/><specs><g id="t"><var a="7"/></g></specs><reuse href="#t" a="5"/><text text="$a"/></svg>')]
+    cases = [cont[1]] if "specs" in lab else [cont[0], cont[2]] if "container" in lab else grp
+    for what, doc in cases:
+        r = run_svgdx(repo, doc)
+        if r["rc"] != 0:
+            continue
+        texts = _re.findall(r"<text[^>]*>([^<]*)</text>", r["out"])
+        if not texts or texts[-1] != "1":
+            return {"input": doc, "observed": "after </%s> $a is %r" % (what, texts[-1] if texts else None), "expected": "$a is 1 again (the binding in force before the element)"}
+    return None
+
+
+GENERATORS.insert(0, ("C15.container.", _container_scope))
+GENERATORS.insert(0, ("C15.group.", _container_scope))
+GENERATORS.insert(0, ("C15.reuse.", _container_scope))
+GENERATORS.insert(0, ("C15.scope.outer", _container_scope))
